@@ -232,7 +232,7 @@ def run_online(ctx, rng):
         for x in orig(a, b):
             stats['yields'] += 1
             sa, sb = snap_real(E, [a]), snap_real(E, [b])
-            if sa != sb and sa != ('cyclic',) and stats['bad'] is None:
+            if sa != sb and ('cyclic',) not in (sa, sb) and stats['bad'] is None:
                 stats['bad'] = (sa, sb)
             yield x
     if rng.random() < 0.6:
